@@ -265,6 +265,13 @@ pub fn exec_c04(plan: &C04Plan, st: &mut Stats) -> Option<Violation> {
     if deferred.is_empty() {
         return None;
     }
+    // long histories: the same-state decoder costs a replay of the whole accepted
+    // history per disposable picture; keep the first few and the last one
+    if deferred.len() > 6 {
+        let last = deferred.pop().unwrap();
+        deferred.truncate(5);
+        deferred.push(last);
+    }
     // clause 3 on a fresh thread: fresh decoders fed the accepted history, then the
     // same bytes marked P
     let opts = plan.opts;
@@ -350,8 +357,13 @@ pub fn gen_c04(rng: &mut Rng, tier: Tier) -> C04Plan {
     let (fl, w, h) = flavour_for(rng, &cfg, w, h);
     let (mut fl, mut w, mut h) = (fl, w, h);
     let sor = cfg.is_sorenson();
-    let n = 2 + rng.usize(if tier == Tier::Quick { 9 } else { 15 });
-    let tr_policy = rng.below(6);
+    // one run in 150 is a LONG history: more than 256 pictures on one decoder, so the
+    // 8-bit temporal reference wraps around while one reference may stay in use
+    let long = rng.chance(1, 150);
+    let n = if long { 258 + rng.usize(60) } else { 2 + rng.usize(if tier == Tier::Quick { 9 } else { 15 }) };
+    let tr_policy = if long { *rng.pick(&[0u64, 0, 4]) } else { rng.below(6) };
+    let (w, h) = if long { (w.min(24), h.min(24)) } else { (w, h) };
+    let (mut fl, mut w, mut h) = if long { flavour_for(rng, &cfg, w, h) } else { (fl, w, h) };
     let mut tr = rng.byte();
     let mut ref_tr: Option<u8> = None;
     let mut last_tr: Option<u8> = None;
@@ -377,7 +389,11 @@ pub fn gen_c04(rng: &mut Rng, tier: Tier) -> C04Plan {
                 }
             }
         };
-        let r = rng.below(100);
+        let mut r = rng.below(100);
+        if long && i > 0 {
+            // mostly disposable and pure-copy pictures, so that one reference lives through the wrap
+            r = *rng.pick(&[25u64, 30, 35, 38, 45, 50, 80, 3, 95]);
+        }
         if r < 8 {
             plan.steps.push(Step::Cleanup);
             continue;
